@@ -157,4 +157,12 @@ theorem within_tol_zero_wavelength_counterexample :
   · decide +kernel
   · norm_num
 
+/-- **Witness (finding D52)**: the hypothesis `refB.Nodup` of `match_ref_nodup` cannot be dropped - a reference selection that names
+    a band twice is passed through, and that band is paired with two source bands (with or without wavelengths).  The real code
+    does the same (`ref_bands=(3, 3)`). -/
+theorem ref_nodup_needs_nodup_selection :
+    matchBands [1, 2] [none, none] [3, 3] [none, none] false (1 / 10) = .ok ([1, 2], [3, 3]) ∧
+    matchBands [1, 2] [some (13 / 20), some (7 / 10)] [3, 3] [some (133 / 200), some (133 / 200)] false (1 / 10) = .ok ([1, 2], [3, 3]) := by
+  constructor <;> decide +kernel
+
 end Homonim
